@@ -1,1 +1,288 @@
-//! helpers shared by the solver monitors
+//! helpers shared by the solver monitors: scenario generator for the option sweep, rounding
+//! slacks, pilot runs, event-root helpers.
+
+use crate::probe::*;
+use crate::problems::*;
+use crate::rng::Rng;
+use crate::util::EPS;
+use ivp::prelude::*;
+
+/// "to rounding" slack for times (DESIGN §2): one addition x + (xend - x) for adaptive methods,
+/// accumulated additions for fixed-step RK4.
+pub fn rt_slack(method: Method, x0: f64, xend: f64, nstep: usize) -> f64 {
+    let scale = x0.abs().max(if xend.is_finite() { xend.abs() } else { x0.abs() });
+    match method {
+        Method::RK4 => (nstep as f64 + 4.0) * EPS * scale,
+        _ => 4.0 * EPS * scale,
+    }
+}
+
+pub struct GenOpts {
+    pub methods: Vec<Method>,
+    pub allow_tiny_span: bool,
+    pub allow_huge: bool,
+    pub allow_inf: bool,
+    pub allow_first_step: bool,
+    pub allow_weird_first_step: bool,
+    pub allow_max_step: bool,
+    pub allow_max_steps: bool,
+    pub allow_t_eval: bool,
+    pub allow_events: bool,
+    pub allow_terminal: bool,
+    pub allow_dense: bool,
+    pub bidirectional_problems: bool,
+    pub min_span: f64,
+    pub max_span: f64,
+}
+impl Default for GenOpts {
+    fn default() -> Self {
+        GenOpts {
+            methods: METHODS.to_vec(),
+            allow_tiny_span: false,
+            allow_huge: false,
+            allow_inf: false,
+            allow_first_step: false,
+            allow_weird_first_step: false,
+            allow_max_step: false,
+            allow_max_steps: false,
+            allow_t_eval: false,
+            allow_events: false,
+            allow_terminal: false,
+            allow_dense: true,
+            bidirectional_problems: true,
+            min_span: 0.05,
+            max_span: 30.0,
+        }
+    }
+}
+
+pub fn random_tols(rng: &mut Rng, method: Method, n: usize) -> (Tol, Tol) {
+    let lo: f64 = match method {
+        Method::RK23 => 1e-7,
+        Method::BDF => 1e-8,
+        _ => 1e-10,
+    };
+    let rtol = rng.logu(lo, 1e-3);
+    let atol = rtol * rng.logu(1e-3, 1.0);
+    if rng.chance(0.25) {
+        (
+            Tol::V((0..n).map(|_| rtol * rng.range(0.5, 2.0)).collect()),
+            Tol::V((0..n).map(|_| atol * rng.range(0.5, 2.0)).collect()),
+        )
+    } else {
+        (Tol::S(rtol), Tol::S(atol))
+    }
+}
+
+/// A random event function whose values along bounded trajectories of the Simple problems
+/// cross zero now and then.
+pub fn random_event(rng: &mut Rng, n: usize, x0: f64, xend: f64) -> EvSpec {
+    let lo = x0.min(xend);
+    let hi = if xend.is_finite() { x0.max(xend) } else { x0.abs() + 20.0 };
+    let kind = match rng.below(6) {
+        0 => EvKind::Time { c: rng.range(lo, hi) },
+        1 | 2 => EvKind::Comp { k: rng.below(n), c: rng.range(-0.8, 0.8) },
+        3 => EvKind::Lin {
+            a: (0..n).map(|_| rng.range(-1.0, 1.0)).collect(),
+            bt: rng.range(-0.05, 0.05),
+            c: rng.range(-0.3, 0.3),
+        },
+        4 => {
+            if n >= 2 {
+                EvKind::Prod { i: 0, j: 1, c: rng.range(-0.3, 0.3) }
+            } else {
+                EvKind::Sq { k: 0, c: rng.range(0.05, 0.8) }
+            }
+        }
+        _ => EvKind::TwoRoots { c1: rng.range(lo, hi), c2: rng.range(lo, hi) },
+    };
+    EvSpec { kind, dir: rng.int(-1, 1) as i32, terminal: None }
+}
+
+/// Generate one sweep case: a bounded Simple problem with a random configuration.
+pub fn gen_case(rng: &mut Rng, g: &GenOpts) -> (Simple, Scn) {
+    let method = *rng.pick(&g.methods);
+    let mut huge = false;
+    let prob = if g.allow_huge && rng.chance(0.06) {
+        huge = true;
+        if rng.bool() {
+            Simple::Zero { n: 1 + rng.below(4) }
+        } else {
+            Simple::Quad
+        }
+    } else if g.bidirectional_problems {
+        Simple::random_bidirectional(rng)
+    } else {
+        Simple::random(rng)
+    };
+    let n = prob.dim();
+    let y0 = prob.y0(rng);
+    let x0 = match rng.below(8) {
+        0 | 1 | 2 => 0.0,
+        3 => rng.range(-3.0, 3.0),
+        4 => 1e-3,
+        5 => rng.sign() * rng.range(10.0, 100.0),
+        6 => {
+            if g.allow_huge {
+                rng.sign() * 1e6
+            } else {
+                rng.range(-3.0, 3.0)
+            }
+        }
+        _ => rng.range(-1.0, 1.0),
+    };
+    let mut span = if huge {
+        rng.logu(1.0, 1e8)
+    } else if g.allow_tiny_span && rng.chance(0.15) {
+        rng.logu(1e-12, 1e-6)
+    } else if g.allow_tiny_span && rng.chance(0.12) {
+        rng.logu(1e-6, 1e-2)
+    } else {
+        rng.logu(g.min_span, g.max_span)
+    };
+    // spans of a few thousand ulps of x0 are legitimately unresolvable (honest StepSizeTooSmall,
+    // and RK4's default step span/100 would be below ulp(x0)): keep span >= 1e7 ulps
+    let min_res = 1e7 * EPS * x0.abs();
+    if span < min_res {
+        span = rng.logu(min_res, (min_res * 1e4).max(1e-3));
+    }
+    if method == Method::RK4 && !huge {
+        span = span.min(20.0);
+    }
+    let dir = rng.sign();
+    let mut xend = x0 + dir * span;
+    let mut scn = Scn::new(method, x0, xend, y0);
+    let (rt, at) = random_tols(rng, method, n);
+    scn.rtol = rt;
+    scn.atol = at;
+    scn.user_jac = is_implicit(method) && rng.bool();
+    scn.dense = g.allow_dense && rng.bool();
+    if g.allow_first_step && rng.chance(0.45) {
+        let h = match rng.below(if g.allow_weird_first_step { 7 } else { 3 }) {
+            0 => span * rng.logu(1e-6, 1e-2),
+            1 => span / 3.0,
+            2 => span * rng.range(0.01, 0.3),
+            3 => span,
+            4 => 5.0 * span,
+            5 => -span * rng.range(0.01, 0.3), // wrong sign (relative to dir) handled below
+            _ => span * 1.0000001,
+        };
+        // RK4 requires the sign of the direction; adaptive methods take either sign
+        let signed = if method == Method::RK4 {
+            dir * h.abs()
+        } else if h < 0.0 {
+            -dir * h.abs()
+        } else if rng.chance(0.7) {
+            dir * h
+        } else {
+            h
+        };
+        scn.first_step = Some(signed);
+    }
+    if method == Method::RK4 && scn.first_step.is_none() && huge {
+        scn.first_step = Some(dir * span / 50.0);
+    }
+    if g.allow_max_step && rng.chance(0.4) && method != Method::RK4 {
+        scn.max_step = Some(match rng.below(5) {
+            0 => f64::INFINITY,
+            1 => span / 4.0,
+            2 => span / 7.0,
+            3 => 3.0 * span,
+            _ => span * rng.range(0.02, 0.5),
+        });
+    }
+    if g.allow_max_steps && rng.chance(0.25) {
+        scn.max_steps = Some(*rng.pick(&[1usize, 2, 3, 5, 10, 30, 100]));
+    }
+    if g.allow_events && rng.chance(0.45) {
+        let ne = 1 + rng.below(3);
+        for _ in 0..ne {
+            scn.events.push(random_event(rng, n, x0, xend));
+        }
+        if g.allow_terminal && rng.chance(0.5) {
+            let k = rng.below(ne);
+            scn.events[k].terminal = Some(1 + rng.below(3));
+        }
+    }
+    if g.allow_inf && rng.chance(0.04) && !huge {
+        // infinite xend, stopped by a terminal time event
+        xend = dir * f64::INFINITY;
+        scn.xend = xend;
+        let c = x0 + dir * span;
+        scn.events = vec![EvSpec { kind: EvKind::Time { c }, dir: 0, terminal: Some(1) }];
+        if method == Method::RK4 {
+            scn.first_step = Some(dir * span / 37.0);
+        } else if let Some(h) = scn.first_step {
+            scn.first_step = Some(h.abs().min(span) * dir);
+        }
+        scn.max_step = scn.max_step.map(|m| if m.is_finite() { m } else { f64::INFINITY });
+    }
+    if g.allow_t_eval && rng.chance(0.45) && xend.is_finite() {
+        let m = 1 + rng.below(12);
+        let mut ts: Vec<f64> = match rng.below(3) {
+            0 => (0..=m).map(|i| x0 + (xend - x0) * i as f64 / m as f64).collect(),
+            1 => {
+                let mut v: Vec<f64> = (0..m).map(|_| x0 + (xend - x0) * rng.f()).collect();
+                v.sort_by(|a, b| a.partial_cmp(b).unwrap());
+                if dir < 0.0 {
+                    v.reverse();
+                }
+                v
+            }
+            _ => {
+                let mut v: Vec<f64> = (0..m).map(|_| x0 + (xend - x0) * rng.f()).collect();
+                v.push(xend);
+                v.sort_by(|a, b| a.partial_cmp(b).unwrap());
+                if dir < 0.0 {
+                    v.reverse();
+                }
+                v
+            }
+        };
+        // keep inside the span and strictly monotone (uniform grid end point may round outside)
+        for t in ts.iter_mut() {
+            if (*t - xend) * dir > 0.0 {
+                *t = xend;
+            }
+            if (*t - x0) * dir < 0.0 {
+                *t = x0;
+            }
+        }
+        ts.dedup();
+        let mut mono = Vec::new();
+        for t in ts {
+            if mono.last().map_or(true, |l: &f64| (t - *l) * dir > 0.0) {
+                mono.push(t);
+            }
+        }
+        scn.t_eval = Some(mono);
+    }
+    // generous but finite evaluation budget
+    scn.budget = 600_000;
+    (prob, scn)
+}
+
+/// The accepted-step grid of a plain run (no t_eval, no first_step output games), or None.
+pub fn pilot_grid(p: &dyn Problem, scn: &Scn) -> Option<Vec<f64>> {
+    let mut s = scn.clone();
+    s.t_eval = None;
+    s.events.clear();
+    s.dense = false;
+    let r = run_solve(p, &s, false, false);
+    match r.out {
+        Outcome::Ok(sol) if sol.status == Status::Success && sol.t.len() >= 2 => Some(sol.t),
+        _ => None,
+    }
+}
+
+pub fn scn_hash(scn: &Scn, p: &dyn Problem) -> u64 {
+    crate::util::hash_str(&scn.describe(p).to_string())
+}
+
+/// number of events of function i that a terminal configuration needs
+pub fn terminal_reached(scn: &Scn, sol: &Solution) -> bool {
+    scn.events.iter().enumerate().any(|(i, e)| match e.terminal {
+        Some(k) => sol.t_events.get(i).map_or(false, |v| v.len() >= k),
+        None => false,
+    })
+}
